@@ -38,8 +38,32 @@ def name(cx, n):
     return STerm(cx.const(n, NAME), (str,), n)
 
 
+CONCAT = z3.Function('shape_concat', SHAPE, SHAPE, SHAPE)  # tuple concatenation of two shapes
+NDIM = z3.Function('shape_ndim', SHAPE, z3.IntSort())  # len(shape)
+
+
+class ShapeT(STerm):
+    """A shape (tuple of ints of unknown rank): equality, `+` (tuple concatenation, uninterpreted with the instances
+    of len(a+b) = len(a)+len(b) added where used) and conditional merge."""
+
+    def binop(self, ctx, op, other, reflected):
+        if op == '+' and isinstance(other, ShapeT):
+            a, b = (other, self) if reflected else (self, other)
+            t = CONCAT(a.term, b.term)
+            ctx.assume(z3.And(NDIM(t) == NDIM(a.term) + NDIM(b.term), NDIM(a.term) >= 0, NDIM(b.term) >= 0), axiom='len(s + t) == len(s) + len(t) >= 0 for tuples')
+            return ShapeT(t, (tuple,))
+        return NotImplemented
+
+    def merge_with(self, c, other, reflected):
+        r = super().merge_with(c, other, reflected)
+        return ShapeT(r.term, r.pytypes) if isinstance(r, STerm) else r
+
+    def havoc(self, ctx, name):
+        return ShapeT(ctx.const(name, SHAPE, report=False), self.pytypes)
+
+
 def shape(cx, n):
-    return STerm(cx.const(n, SHAPE), (tuple,), n)
+    return ShapeT(cx.const(n, SHAPE), (tuple,), n)
 
 
 DT_CONST = {t: z3.Const('dtype_' + t.__name__, DT) for t in (bool, int, float, complex)}
@@ -429,6 +453,12 @@ def contracts():
                 continue
             cs.append(ReplaceInit(spelling, valkind))
     cs += [JoinArguments(), ArgumentsFor()]
+    from contracts import c13_ext, c13_runtime, c13_dag, c13_degree
+    cs += c13_ext.contracts()
+    cs += c13_ext.field_contracts()
+    cs += c13_runtime.contracts()
+    cs += c13_dag.contracts()
+    cs += c13_degree.contracts()
     return cs
 
 
@@ -436,8 +466,46 @@ def contracts():
 TRUSTED = ['pyvc symbolic executor and its Python model; dicts with symbolic keys read as association lists',
            "str.split as an external (names free of ',' and ':'); substring test on a specification string: true for its parts, unconstrained otherwise",
            'generator _argument_to_array evaluated eagerly (its consumers exhaust it at once)',
-           'Array.cast is the identity on arrays; the Argument constructor stores name, shape, dtype']
+           'Array.cast is the identity on arrays; the Argument constructor stores name, shape, dtype (default dtype float, no spaces, arguments {name: (shape, dtype)})',
+           # c13_ext
+           '@nutils_dispatch is transparent for arguments without __nutils_dispatch__ (decorator dropped)',
+           'shapes of unknown rank: uninterpreted sort with tuple concatenation, len(s + t) == len(s) + len(t); frozenset union with s | {} == s',
+           'function.Array metadata of `*`/`+` (function._Wrapper over the broadcast operands): shape = numpy broadcast with broadcast(s + t, t) == s + t and broadcast(s, s) == s, '
+           'dtype promotion with promote(d, d) == d, spaces = union, arguments = _join_arguments (REAL body) of the operands; numpy.sum over the axes len(s)..len(s)+len(t)-1 of shape s + t '
+           'leaves s and keeps int/float/complex dtype, spaces, arguments; util.sum = functools.reduce(operator.add) (TypeError when empty) -- cross-checked in native/axioms_c13.py',
+           'tuple(g(n) for n in shape) over a shape of unknown rank is the elementwise map (g evaluated once on a generic element); evaluable.Argument/constant are recorded, not executed',
+           'function arrays of known rank (field/dotarg): Array.transpose(axes) permutes the shape, function._append_axes(a, s) has shape a.shape + s, `*` broadcasts axis by axis from the '
+           'right (ValueError when two lengths differ and neither is 1), numpy.sum(a, axis) removes that axis; dtype/arguments as above -- cross-checked in native/axioms_c13.py',
+           # c13_runtime
+           '_pyast expression builders (Variable, LiteralStr, BinOp, get_attr, call, get_item) denote the Python expressions they print; _BlockBuilder.assign_to/if_/raise_ emit '
+           '`lhs = rhs` / `if c:` / `raise e` (their locking discipline is C16, faithful printing is C02: not applicable); builder.compile(self.shape) is a variable holding the declared shape; '
+           'numpy.asarray(v, dtype=...) has shape numpy.shape(v) (no broadcasting); tuple != on shapes is inequality',
+           # c13_dag
+           '_util._reduce: Node -> (constructor, children), Argument -> (Argument, (name, shape, dtype)), non-empty tuple -> (_tuple, items), terminals/empty containers -> None; '
+           'util.IDDict is a mapping keyed by identity; collections.namedtuple; functools.wraps is transparent; evaluable.asarray is the identity on Arrays; '
+           '_any_certainly_different(s1, s2) implies s1 != s2; zeros_like(a) is the zero array of the shape and dtype of a',
+           # c13_degree
+           'degree MEANING per node class (contracts/c13_degree.py KIND): deg(f g) <= deg f + deg g; deg(f + g) <= max; deg(f ** p) <= p deg f for a constant scalar non-negative integer p '
+           '(.simplified, unalign, Cast keep the value of the exponent); an Argument has degree 1 in itself; Monomial <= deg(values) + sum deg(args); InsertAxis, Transpose, Sum, TakeDiag, Take, '
+           'Inflate, Diagonalize, Ravel, Unravel, LoopSum, LoopConcatenate are linear in `func` when their other Array operands do not depend on the argument; a node independent of the '
+           'argument is polynomial of degree 0 -- cross-checked numerically (finite differences) in native/axioms_c13.py',
+           'structural induction over the expression DAG (rule contract + wrapper contract => every argument_degree is an upper bound): meta-argument, as in C06']
 ASSUMPTIONS = ['names, shapes, dtypes are arbitrary values with equality (uninterpreted sorts)',
-               'BOUNDED: the array has two arguments, one specification item per call (iterations are independent: meta-argument)']
-NOT_COVERED = ['that lowering / evaluable.replace_arguments / linearize / factor evaluate to the substituted value (semantic; needs array semantics)',
-               'derivative and linearize with respect to an argument']
+               'BOUNDED: the array has two arguments, one specification item per call (iterations are independent: meta-argument)',
+               'linearize: the specification names an argument of f (a foreign name or an empty specification makes util.sum raise TypeError: candidate defect, contracts parked in c13_ext.PARKED)',
+               'BOUNDED (c13_dag): expression DAGs T1..T5 (<= 5 nodes, depth <= 3, one shared interior node, one shared leaf, one tuple-valued field), two replacement keys k1 != k2, '
+               'argument shapes are irreducible objects (the real shapes are tuples of constants, which are traversed too)',
+               'c13_degree: index arrays of a Monomial are constants (call sites evaluable.factor and Monomial._derivative); for LoopConcatenate a loop length that depends on the '
+               'argument makes concat_length depend on it (call site evaluable.loop_concatenate); Multiply/Add have exactly two operands (class invariant); '
+               'BOUNDED: Monomial with <= 3 args, exponent of Power under <= 1 Cast',
+               'BOUNDED (field/dotarg): 0..2 arrays of rank 1..2, extra shape of rank 0..1, each array depending on one argument; lengths symbolic and >= 0',
+               'Argument._compile: `shape`, the variable for the node and its block come from the builder (C16 / C02 territory)']
+NOT_COVERED = ['that lowering evaluates to the substituted value on real arrays (semantic; needs array semantics) -- covered only structurally: evaluable.replace_arguments rebuilds the DAG with '
+               'the replacement objects in place (bounded DAG family)',
+               'values of derivative / linearize (only announced shape, dtype, spaces, arguments and the evaluable target are proved; values only in the native replays)',
+               'evaluable.factor itself (its queue loop needs eval_once, sparse extraction and simplification): only its ingredients zero_all_arguments, argument_degree, Monomial._derivative; '
+               'function.factor/_Factor',
+               'function.field / dotarg beyond two arrays of rank <= 2 (bounded configurations); its value (inner product) only in the native replay',
+               'broadcast/promotion metadata of function arrays in general (assumed, see TRUSTED); _Replace.lower / _Derivative.lower',
+               'memoisation of irreducible objects in shallow_replace (str, type objects are visited once per occurrence: harmless, the callable is pure)',
+               'the exact degree (argument_degree is only proved to be an upper bound; e.g. u**0 is declined because the zero exponent simplifies to Zeros, not Constant)']
